@@ -261,6 +261,13 @@ func (g *Gen) genC14(n int) error {
 		g.emit("note case %d", i)
 		g.emit("vreset")
 		g.setMode()
+		if i%40 == 17 || i%40 == 29 {
+			// the index class of a field depends on that field's own vector count: two fields of 600
+			// vectors each are exact ones (17); a field of exactly 1000 vectors is the first clustered one (29)
+			g.vectorCountCase(i%40 == 29)
+			g.st("case")
+			continue
+		}
 		cfg := g.vecCfg()
 		if g.tier == "thorough" && i%100 == 99 || g.tier == "quick" && i%40 == 39 {
 			// clustered index class: at least 1000 vectors
@@ -281,6 +288,23 @@ func (g *Gen) genC14(n int) error {
 		o := g.fresh("o")
 		g.emit("open %s %s", o, f)
 		g.alias(o, s)
+		if i%5 == 1 && len(b.Docs) <= 50 {
+			// the engine fails while a field's index is loaded for the first caller: that caller gets
+			// the error, the next one a working index
+			nd := len(b.Docs)
+			o2 := g.fresh("o")
+			g.emit("open %s %s", o2, f)
+			g.alias(o2, s)
+			for _, fn := range []string{"vecA", "vecB"} {
+				h1, h2 := g.fresh("h"), g.fresh("h")
+				g.emit("vopen %s %s %s filt=%s ex=nil engfail=ReadIndexFromBuffer:1", h1, o2, fn, g.pick([]string{"0", "1"}))
+				g.emit("vopen %s %s %s filt=0 ex=nil", h2, o2, fn)
+				g.emit("vsearch %s q=%s k=%d", h2, g.randQuery(2), nd*3)
+				g.emit("vclose %s", h2)
+			}
+			g.emit("close %s", o2)
+			g.emit("vcounters")
+		}
 		if i%5 == 3 && len(b.Docs) <= 50 {
 			// first opens of an uncached field by several goroutines at once, all with the same
 			// exclusion bitmap: winner and losers of the race answer alike
@@ -398,6 +422,20 @@ func (g *Gen) bigVecMerge() {
 			dropped = append(dropped, d)
 		}
 	}
+	if g.chance(0.4) {
+		// exactly 1000 surviving vectors: the smallest clustered index
+		dropped = dropped[:0]
+		left := countVecs(b, "vecA")
+		for d := 0; d < nd && left > 1000; d++ {
+			if v := docVecCount(b, d, "vecA"); v > 0 && left-v >= 1000 {
+				dropped = append(dropped, d)
+				left -= v
+			}
+		}
+		if left == 1000 {
+			g.st("vec.bigmerge.exactly1000")
+		}
+	}
 	f := g.fresh("f")
 	g.emit("merge %s segs=%s drops=%s", f, s, intList(dropped))
 	m := g.fresh("m")
@@ -438,6 +476,11 @@ func (g *Gen) genC15(n int) error {
 		}
 		if i%10 == 8 {
 			g.sameVectorCase()
+			g.st("case")
+			continue
+		}
+		if i%10 == 2 {
+			g.emptiedVectorFieldCase()
 			g.st("case")
 			continue
 		}
@@ -942,4 +985,98 @@ func (g *Gen) manyVectorsFaultCase() {
 	}
 	g.emit("vcounters")
 	g.st("vec.manyvectors")
+}
+
+// vectorCountCase: vector counts around the threshold between the exact and the clustered index class.
+func (g *Gen) vectorCountCase(exactly1000 bool) {
+	b := &BatchSpec{Name: g.fresh("b")}
+	nd := 600
+	if exactly1000 {
+		nd = 1000
+	}
+	for d := 0; d < nd; d++ {
+		id := []byte(fmt.Sprintf("%s-%d", b.Name, d))
+		doc := DocSpec{ID: id, Plain: true}
+		doc.Fields = append(doc.Fields, FieldSpec{Kind: "fld", Name: "_id", Typ: 't', Stored: true, Len: 1, Val: id, Toks: []TokSpec{{Term: id, Freq: 1}}})
+		doc.Fields = append(doc.Fields, FieldSpec{Kind: "vec", Name: "vecA", Dim: 2, Metric: "l2_norm", Opt: g.vecOpt["vecA"], Vec: []int{g.r.Intn(9) - 4, g.r.Intn(9) - 4}})
+		if !exactly1000 {
+			doc.Fields = append(doc.Fields, FieldSpec{Kind: "vec", Name: "vecB", Dim: 2, Metric: g.vecBMetric, Opt: g.vecOpt["vecB"], Vec: []int{g.r.Intn(9) - 4, g.r.Intn(9) - 4}})
+		}
+		b.Docs = append(b.Docs, doc)
+	}
+	g.emitBatch(b)
+	s := g.fresh("s")
+	g.emit("build %s %s", s, b.Name)
+	g.newBuilt(s, b)
+	g.emit("vstats %s", s)
+	for _, fn := range []string{"vecA", "vecB"} {
+		h := g.fresh("h")
+		g.emit("vopen %s %s %s filt=1 ex=nil", h, s, fn)
+		g.emit("vsearch %s q=%s k=%d", h, g.randQuery(2), nd+5)
+		g.emit("vsearch %s q=%s k=25", h, g.randQuery(2))
+		g.emit("vsearch %s q=%s k=7 elig=%s", h, g.randQuery(2), g.liveSubset(40, "nil", 1))
+		g.emit("vclose %s", h)
+	}
+	g.emit("close %s", s)
+	g.emit("vcounters")
+	g.st("vec.countcase")
+}
+
+// emptiedVectorFieldCase: a merged segment that still knows a vector field by name but holds no
+// vector of it any more (all its owners were deleted) comes BEFORE a segment that has vectors.
+func (g *Gen) emptiedVectorFieldCase() {
+	g.setMode()
+	mk := func(withVec func(d int) bool, nd int) string {
+		b := &BatchSpec{Name: g.fresh("b")}
+		for d := 0; d < nd; d++ {
+			id := []byte(fmt.Sprintf("%s-%d", b.Name, d))
+			doc := DocSpec{ID: id, Plain: true}
+			doc.Fields = append(doc.Fields, FieldSpec{Kind: "fld", Name: "_id", Typ: 't', Stored: true, Len: 1, Val: id, Toks: []TokSpec{{Term: id, Freq: 1}}})
+			if withVec(d) {
+				doc.Fields = append(doc.Fields, FieldSpec{Kind: "vec", Name: "vecA", Dim: 2, Metric: "l2_norm", Opt: g.vecOpt["vecA"], Vec: []int{g.r.Intn(9) - 4, g.r.Intn(9) - 4}})
+			}
+			b.Docs = append(b.Docs, doc)
+		}
+		g.emitBatch(b)
+		s := g.fresh("s")
+		g.emit("build %s %s", s, b.Name)
+		g.newBuilt(s, b)
+		return s
+	}
+	a := mk(func(d int) bool { return d == 0 }, 3) // only document 0 carries a vector
+	bseg := mk(func(d int) bool { return true }, 3)
+	f1 := g.fresh("f")
+	g.emit("merge %s segs=%s drops=0", f1, a)
+	m1 := g.fresh("m")
+	g.emit("open %s %s", m1, f1)
+	g.ndocs[m1] = 2
+	g.emit("vstats %s", m1)
+	for _, order := range [][]string{{m1, bseg}, {bseg, m1}} {
+		f2 := g.fresh("f")
+		g.emit("merge %s segs=%s drops=nil|nil", f2, strList(order))
+		m2 := g.fresh("m")
+		g.emit("open %s %s", m2, f2)
+		g.ndocs[m2] = 5
+		g.emit("vstats %s", m2)
+		h := g.fresh("h")
+		g.emit("vopen %s %s vecA filt=0 ex=nil", h, m2)
+		g.emit("vsearch %s q=%s k=10", h, g.randQuery(2))
+		g.emit("vclose %s", h)
+		g.emit("close %s", m2)
+	}
+	g.emit("close %s", m1)
+	g.emit("close %s", a)
+	g.emit("close %s", bseg)
+	g.emit("vcounters")
+	g.st("vec.emptiedfield")
+}
+
+func docVecCount(b *BatchSpec, d int, fn string) int {
+	n := 0
+	for _, f := range b.Docs[d].Fields {
+		if f.Kind == "vec" && f.Name == fn && f.Dim > 0 {
+			n += len(f.Vec) / f.Dim
+		}
+	}
+	return n
 }
